@@ -32,6 +32,15 @@ pub struct ContextHandle {
 }
 
 impl ContextHandle {
+    /// Verification hook: sets the next packet identifier and subscription identifier
+    /// handed out by this handle (and all its clones).
+    ///
+    #[cfg(feature = "verif")]
+    pub fn verif_seed_ids(&self, packet_id: u16, sub_id: u32) {
+        self.packet_id.store(packet_id, Ordering::Relaxed);
+        self.sub_id.store(sub_id, Ordering::Relaxed);
+    }
+
     /// Performs graceful disconnection with the broker by sending the
     /// [Disconnect](https://docs.oasis-open.org/mqtt/mqtt/v5.0/os/mqtt-v5.0-os.html#_Toc3901205) packet.
     ///
